@@ -334,7 +334,13 @@ def check_tagged(ctx, rng, sdir):
     st = obs.report_statuses(json.loads(r["out"])[0])
     bad = {k: v for k, v in st.items() if v != ["PASS"]}
     if bad:
-        ctx.violation("rulegen:tagged-template:self-validation", "rules generated from a template with short-form tags do not PASS on that template: %s\n%s" % (bad, out[:500]), dict(case, rules=out))
+        # the listed finding `property-missing-on-some-resource` (resources of one type with different property names) can occur here as well:
+        # when every failing check is an unresolved property it is that defect, whatever the template is written with
+        why = attribute(json.loads(r["out"])[0], None)
+        if why == "property-missing-on-some-resource":
+            ctx.violation("self-validation:property-missing-on-some-resource", "generated rules do not PASS on their own (tagged) template: %s\n%s" % (bad, out[:500]), dict(case, rules=out))
+        else:
+            ctx.violation("rulegen:tagged-template:self-validation", "rules generated from a template with short-form tags do not PASS on that template (%s): %s\n%s" % (why, bad, out[:500]), dict(case, rules=out))
     else:
         ctx.res.distinct.add(("tagged", "self-pass"))
 
